@@ -254,6 +254,12 @@ func (c *Ctx) FinishReplay(t *testing.T, fl *Failure) {
 // case text is written to <VERIF_OUT>.hang.txt and the process exits with status 3
 // (a Go program cannot interrupt a computation that never yields).
 func Watch(src string, limit time.Duration) (done func()) {
+	return WatchFail(src, limit, nil)
+}
+
+// WatchFail is Watch for properties where not terminating is itself a
+// violation: on timeout onHang is written as the replay file before exiting.
+func WatchFail(src string, limit time.Duration, onHang *Failure) (done func()) {
 	ch := make(chan struct{})
 	go func() {
 		select {
@@ -261,6 +267,10 @@ func Watch(src string, limit time.Duration) (done func()) {
 		case <-time.After(limit):
 			if out := os.Getenv("VERIF_OUT"); out != "" {
 				os.WriteFile(out+".hang.txt", []byte(src), 0o644) //nolint:errcheck
+				if onHang != nil {
+					b, _ := json.MarshalIndent(onHang, "", " ")
+					os.WriteFile(out+".replay.json", b, 0o644) //nolint:errcheck
+				}
 			}
 			fmt.Fprintf(os.Stderr, "WATCHDOG: case did not finish within %s:\n%s\n", limit, src)
 			os.Exit(3)
